@@ -7,15 +7,17 @@ SPEC = {
     ],
     "rule": "secret sharing: case = (group of P256/P384/P521/ristretto255, t, n with 0 <= t < n <= 8 (16 thorough), secret in {0,1,r-1,random}, "
             "identifiers 1..n via Share or distinct arbitrary non-zero scalars via ShareWithID, coefficient stream, dealer reusing one identifier scalar object in place or a fresh one per call, caller overwriting the scalars passed in and the returned share / commitment objects after the calls, up to 3 subsets S in drawn order, up to 3 altered shares) drawn by rapid. "
-            "non-trivial = a recovery whose subset is not the prefix {1..t+1} in order, or has more than t+1 shares, or uses non-sequential identifiers, or is an unqualified set (|S| <= t) that was refused, "
+            "concurrent sub-check (ordinary and -race build): 8 goroutines behind a barrier deal with ONE SecretSharing value and by-value copies (Share, ShareWithID with distinct identifiers, Verify against one shared commitment, Recover), every dealt share compared with the reference polynomial; 8 goroutines sign 8 messages with ONE KeyShare per player (cached/uncached, blinded/unblinded) and 8 goroutines combine ONE shared slice of signature shares, every result compared with crypto/rsa.SignPKCS1v15. "
+            "non-trivial = a concurrent run, a recovery whose subset is not the prefix {1..t+1} in order, or has more than t+1 shares, or uses non-sequential identifiers, or is an unqualified set (|S| <= t) that was refused, "
             "or an altered (value/identifier) share that is off the polynomial and was rejected. "
             "threshold RSA: case = (pool key, l in 2..30, k in 1..l, cached/uncached Deal, blinded/unblinded (parallel or not) Sign, PKCS#1 v1.5 or PSS padder with hash and salt mode, message, player subset of size >= k in drawn order, blinding chosen per signature), followed by a second message signed with the same KeyShare objects (other padding/blinding, in one third of the cases after a MarshalBinary/UnmarshalBinary round trip of the participating shares); "
-            "plus every k-subset of every (l,k) with 2 <= l <= 6 (119 subsets, ascending and one rotated order, and again for a second message on the same key shares). "
+            "then a third message for which the key shares (encodings from a cached deal, an uncached deal, or the live shares) and the signature shares are decoded into ONE reused KeyShare / SignShare object; keys include e = 257 variants of three pool keys; plus every k-subset of every (l,k) with 2 <= l <= 6 (119 subsets, ascending and one rotated order, and again for a second message on the same key shares). "
             "non-trivial = the subset is not the first k players in order, or has more than k players, or is a second-message round on key shares that have already signed, or is a (k-1)-subset that did not yield a verifying signature; "
             "distinct by FNV-64 of (sub-check, group or key, parameters, subset and order, alteration, secret or message)",
     "assumptions": COMMON_ASSUME + [
+        "the harness does not own the Go scheduler: the concurrent sub-check relies on tight dealing loops behind a barrier plus the race detector; an interleaving that needs one precise preemption point may be missed",
         "group orders are taken from crypto/elliptic and RFC 9496; the reference interpolation is math/big Lagrange evaluation",
-        "crypto/rsa VerifyPKCS1v15 / VerifyPSS / SignPKCS1v15 are the oracle for threshold RSA signatures; RSA keys come from a committed pool (1024, 1025, 1536, 2048 bit, one with safe primes), e = 65537",
+        "crypto/rsa VerifyPKCS1v15 / VerifyPSS / SignPKCS1v15 are the oracle for threshold RSA signatures; RSA keys come from a committed pool (1024, 1025, 1536, 2048 bit, one with safe primes), e = 65537 or 257",
         "a random top coefficient equal to zero (probability 1/r) is ignored",
     ],
     "budget": {"quick": 900, "thorough": 3600},
@@ -31,5 +33,5 @@ MANIFEST = {
             "crypto/rsa verifies (and that equals crypto/rsa.SignPKCS1v15 byte for byte for PKCS#1 v1.5); k-1 players must not yield a verifying signature; the same key-share objects then sign a second message (optionally after a marshal round trip) and must combine again; all k-subsets are enumerated for l <= 6. "
             "Exploration is the right level: the quantifier ranges over parameters and subsets, each case has an exact oracle, and the defect found (inexact integer arithmetic) shows up only off the tested prefix subsets.",
     "note": "trusts math/big, crypto/elliptic group orders and crypto/rsa verification; duplicate identifiers (documented panic) and l = 1 (rejected by Deal) are outside the domain; "
-            "RSA public exponent is 65537 throughout (Shoup's scheme needs e prime and larger than l); concurrency of KeyShare.Sign belongs to C11; never establishes absence",
+            "RSA public exponents 65537 and 257 (Shoup's scheme needs e prime and larger than l); concurrency of KeyShare.Sign belongs to C11; never establishes absence",
 }
